@@ -40,6 +40,22 @@
                    two kicks; they commute with them).
      V<e>          a caller's harness-level await (AWAITREG / AWAITREADY / TWAKE / UNPARKED between two operations) has no model step;
                    the silent FTop step of the caller's NEXT operation is not taken at these events.
+     future_sync   Y<q>[body]a / k<n> / k<n>l<m> = OFutSync (body: t, w<e>, o<e>-<e2>; a body with c is skipped).  The two channels the
+                   caller creates before `new fres` are queue_ready (cell r = the model's cell count at the FTop step) and done (r + 1).
+                   Slot job: send(queue_ready) is a SILENT step (the shim logs `os send` AFTER the operation and after the receiver's waker
+                   has run: the step is taken before the runner's next event, i.e. before the api TWAKE it causes, or pulled forward
+                   when a poll of another task sees the value first - counted os_pull_forward); `os poll <done>` = PAwaitDone (pending /
+                   value / canceled compared with the cell and with how it was resolved); cs fres = PSignal.  Owner: YPuse / YPloop / YPsfret
+                   silent, SchedulerFuture::poll = the usual frames, `os poll <ready>` = YPrecv (result compared), api AWAITREG / AWAITREADY /
+                   EITHER.. = the user future's awaits, sf OEND <oid> finished = the user future completes, task_finished.send and its drop
+                   silent like the slot job's send, api UNPARKED = YPpark, sf DROPFUT = the decision to drop, `os rxdrop <ready>` /
+                   sf OEND <oid> cancelled = drop of `state`.  Lines without a model step are obligations: sf OSTART <oid> and
+                   `os rxdrop <ready>` before the user future's first step, `os rxdrop <done>` before the signal, the `os send` / `os txdrop`
+                   line of a silent step before the frame below its waker calls moves; each os send / txdrop / rxdrop at most once.
+                   A second pending poll of queue_ready REPLACES the owner's waker in the real oneshot; the model's cell keeps both (and
+                   would call the task waker twice): the driver keeps the newest (counted oneshot_rereg, like the suspend channel).
+                   At QUIET the slot jobs of dropped calls may still be queued (the harness counts a dropped call as finished).
+                   sf POLL / YNEW / YDONE are not checked; markers of OTHER operations' bodies (sf OSTART / OEND) are ignored as before.
      end of log    the replay stops at `api QUIET` (pool >= 1; wait_all returned) or `api END` (pool 0: the harness then drains
                    the queues itself).  Every caller must have finished its script at END; at QUIET no job may be left
                    (programs without suspend: the harness counts a suspend as finished when its resumer is used); the pool
@@ -60,10 +76,12 @@ exception Diverge of string
 exception Unsupported of string
 
 type lab = Core | Sched | Fres of int | Dw of int | Dbl of int | Fire of int | Reg of int | Rdy of int | Twake of int | Unparked | NewF | SetReady of int
+         | OsPoll of int | OsRx of int | Oend | OendC | DropFut      (* future_sync: oneshot cell polled / receiver dropped; user future ends / is destroyed; sf DROPFUT *)
 let show_lab = function
   | Core -> "core" | Sched -> "sched" | Fres f -> Printf.sprintf "fres(%d)" f | Dw d -> Printf.sprintf "dwaker(%d)" d
   | Dbl k -> Printf.sprintf "dblwaker(%d)" k | Fire e -> Printf.sprintf "FIRE(%d)" e | Reg e -> Printf.sprintf "AWAITREG(%d)" e
   | Rdy e -> Printf.sprintf "AWAITREADY(%d)" e | Twake c -> Printf.sprintf "TWAKE(actor %d)" c | Unparked -> "UNPARKED" | NewF -> "new fres" | SetReady c -> Printf.sprintf "ready := true (job of waiter %d)" c
+  | OsPoll c -> Printf.sprintf "os poll (cell %d)" c | OsRx c -> Printf.sprintf "os rxdrop (cell %d)" c | Oend -> "sf OEND finished" | OendC -> "sf OEND cancelled" | DropFut -> "sf DROPFUT"
 
 let show_qs = function
   | Idle -> "Idle" | Pending -> "Pending" | Running -> "Running" | WaitingForWake -> "WaitingForWake"
@@ -75,7 +93,8 @@ let show_job = function
   | JPlain o -> Printf.sprintf "JPlain %d" (i o)
   | JFut (o, st, sc) -> Printf.sprintf "JFut %d %s [%s]" (i o) (match st with NotCreated -> "new" | Waiting -> "run")
                           (String.concat ";" (List.map (function PAwait e -> Printf.sprintf "w%d" (i e) | PSignal f -> Printf.sprintf "sig%d" (i f) | PTouch -> "t"
-                                                            | PAwaitEither (e, e2) -> Printf.sprintf "o%d-%d" (i e) (i e2)) sc))
+                                                            | PAwaitEither (e, e2) -> Printf.sprintf "o%d-%d" (i e) (i e2)
+                                                            | PSendReady r -> Printf.sprintf "sendready%d" (i r) | PAwaitDone d -> Printf.sprintf "awaitdone%d" (i d)) sc))
   | JSync (o, c, tk) -> Printf.sprintf "JSync %d c%d%s" (i o) (i c) (match tk with Some f -> Printf.sprintf " take%d" (i f) | None -> "")
 let show_frame = function
   | FTop l -> Printf.sprintf "FTop(%d left)" (List.length l) | FD1 j -> "FD1 " ^ show_job j | FD2 -> "FD2"
@@ -92,9 +111,15 @@ let show_frame = function
   | FFire e -> Printf.sprintf "FFire %d" (i e) | FPIdle -> "FPIdle" | FDRdeq -> "FDRdeq" | FDRrequeue _ -> "FDRrequeue" | FDRpend -> "FDRpend" | FDRfin -> "FDRfin"
   | FJob (j, w, k) -> Printf.sprintf "FJob(%s, %s, %s)" (show_job j) (show_waker w) (match k with KDrain -> "drain" | KRoj -> "roj" | KDq (f, d) -> Printf.sprintf "dq %d %d" (i f) (i d))
   | FWake w -> "FWake " ^ show_waker w | FUnpark c -> Printf.sprintf "FUnpark %d" (i c)
+  | FY (pc, y, st, _) -> Printf.sprintf "FY %s op%d f%d r%d %s"
+                           (match pc with YPuse -> "use" | YPpark -> "park" | YPloop -> "loop" | YPsfret -> "sfret" | YPrecv -> "recv" | YPuser -> "user" | YPfin -> "fin"
+                                        | YPpend -> "pend" | YPdrop1 -> "drop1" | YPdrop2 -> "drop2")
+                           (i y.y_op) (i y.y_f) (i y.y_r) (match st with YQueue _ -> "WaitingForQueue" | YFuture b -> Printf.sprintf "WaitingForFuture(%d left)" (List.length b))
+  | _ -> "(frame)"
 
 (* ---------- program text -> model scripts ----------
    D<q>[t..] ODesync      S<q>[t..] OSync      F<q>[body]<mode> OFuture      A<q>e<e><mode> = OFuture [await e; touch]
+   Y<q>[body]a|k<n>[l<m>] OFutSync
    U<q> OSuspend (a fresh event per suspend; R and r are the fire of that event)     E<e> OFire     V<e> nothing (the caller
    only waits).  Body: t PTouch, w<e> PAwait, a<e>-<e2> PAwait e (e2 is fired by the harness from inside the poll once the waker
    is registered: allowed only when nothing of the model awaits e2).  Everything else, and programs on several objects: SKIP. *)
@@ -160,7 +185,9 @@ let parse_prog (text : string) : pinfo =
           | 'V' -> []
           | 'L' -> []                                   (* the caller yields: no model step *)
           | 'T' -> raise (Unsupported "try_sync (T)")
-          | 'Y' -> raise (Unsupported "future_sync (Y)")
+          | 'Y' -> let (q, j) = num tok 1 in obj q; let (b, j') = body_of tok j in
+            let u = (match mode_of tok j' with UAwait -> UAwait | UDropAfter n -> UDropAfter n | _ -> raise (Unsupported ("mode of " ^ tok))) in
+            [OFutSync (parse_body tok b, u)]
           | 'I' | 'J' | 'G' | 'H' | 'N' | 'K' | 'Z' -> raise (Unsupported "pipes")
           | 'X' -> raise (Unsupported "drop of the object (X)")
           | 'P' | 'W' -> raise (Unsupported "panic programs")
@@ -200,7 +227,25 @@ let at_of (s : state) (fr : frame) : lab option =
   | FFire e -> Some (Fire (i e))
   | FWake (WTask c) -> Some (Twake (i c))
   | FPark _ -> Some Unparked
-  | FTop ((OFuture _ | OSuspend _) :: _) -> Some NewF     (* the creation of the SchedulerFuture: future indices follow the log *)
+  | FTop ((OFuture _ | OSuspend _ | OFutSync _) :: _) -> Some NewF     (* the creation of the SchedulerFuture: future indices follow the log *)
+  (* future_sync.  The slot job: send(queue_ready) is SILENT (the shim logs `os send` after the operation and after the receiver's
+     waker has run: the step is taken lazily before the runner's next event - the waker call - or pulled forward by a poll that
+     sees the value); one poll of done_recv = `os poll`; the signal = fres (generic case below) *)
+  | FJob (JFut (_, Waiting, PAwaitDone d :: _), _, _) -> Some (OsPoll (i d))
+  (* the owner's SyncFuture *)
+  | FY (pc, y, st, u) ->
+    let polls = (match u with UAwait | UDropAfter (S _) -> true | _ -> false) in
+    (match pc, st with
+     | (YPuse | YPpend), _ -> if polls then None else Some DropFut            (* sf DROPFUT: the executor gives up and drops the future *)
+     | YPpark, _ -> Some Unparked
+     | YPrecv, YQueue _ -> Some (OsPoll (i y.y_r))
+     | YPuser, YFuture [] -> Some Oend                                        (* sf OEND <oid> finished *)
+     | YPuser, YFuture (PAwait e :: _) -> if (getev s (i e)).fired then Some (Rdy (i e)) else Some (Reg (i e))
+     | YPuser, YFuture (PAwaitEither (e, e2) :: _) ->
+       if (getev s (i e)).fired then Some (Rdy (i e)) else if (getev s (i e2)).fired then Some (Rdy (i e2)) else Some (Reg (i e))
+     | YPdrop1, YQueue _ -> Some (OsRx (i y.y_r))                              (* the receiver of queue_ready is dropped *)
+     | YPdrop1, YFuture _ -> Some OendC                                       (* sf OEND <oid> cancelled: the user future is destroyed *)
+     | _ -> None)      (* YPfin / YPdrop2 (task_finished.send / its drop) are silent for the same reason as the slot job's send *)
   | _ -> (match frame_label fr with
       | (LCore, _) -> Some Core | (LSched, _) -> Some Sched | (LFres, f) -> Some (Fres (i f)) | (LDw, d) -> Some (Dw (i d))
       | (LDbl, k) -> Some (Dbl (i k)) | (LEv, _) | (LNone, _) -> None)
@@ -247,17 +292,31 @@ let reverse_wakes (s : state) (a : int) (n : int) : state =
         let (revd, rest) = split n ac.stack [] in { ac with stack = revd @ rest }) s.actors }
 
 (* ---------- replay ---------- *)
-type stats = { mutable steps : int; mutable labelled : int; mutable stutters : int; mutable reorders : int; mutable rereg : int }
+type stats = { mutable steps : int; mutable labelled : int; mutable stutters : int; mutable reorders : int; mutable rereg : int; mutable pulls : int; mutable ycalls : int }
 
 let replay (p : pinfo) (evs : ev array) : stats =
   let ncallers = List.length p.scripts in
   let s = ref (init p.scripts (nat_of_int p.pool) (nat_of_int p.nev)) in
-  let st = { steps = 0; labelled = 0; stutters = 0; reorders = 0; rereg = 0 } in
+  let st = { steps = 0; labelled = 0; stutters = 0; reorders = 0; rereg = 0; pulls = 0; ycalls = 0 } in
   let cur = ref 0 in
   let div fmt = Printf.ksprintf (fun m -> raise (Diverge (Printf.sprintf "event %d: %s" !cur m))) fmt in
   let actor_of : (int, int) Hashtbl.t = Hashtbl.create 8 in
   let npool_seen = ref 0 in
   let os_ev : (int, int) Hashtbl.t = Hashtbl.create 8 in
+  (* future_sync: the two channels a caller created just before `new fres` (queue_ready, done), channel id -> model cell, the
+     harness operation id of the call a caller is in (sf YNEW), and how a done cell was resolved (true = sent, false = sender dropped) *)
+  let ypend : (int, int list) Hashtbl.t = Hashtbl.create 4 in
+  let ychan : (int, int) Hashtbl.t = Hashtbl.create 8 in
+  let yoid : (int, int) Hashtbl.t = Hashtbl.create 4 in
+  let cell_sent : (int, bool) Hashtbl.t = Hashtbl.create 8 in
+  let os_seen : (int * string, unit) Hashtbl.t = Hashtbl.create 8 in
+  (* log lines that have no model step of their own but must come before the actor goes on: after queue_ready resolved for the owner
+     `sf OSTART` and `os rxdrop ready` precede the user future's first step; after done_recv resolved `os rxdrop fin` precedes the
+     signal; after a silent send / sender drop its `os send` / `os txdrop` line precedes the step of the frame below the waker calls *)
+  let need_ostart : (int, unit) Hashtbl.t = Hashtbl.create 4 in
+  let need_rx : (int, int) Hashtbl.t = Hashtbl.create 4 in                    (* actor -> cell *)
+  let need_tx : (int, int * int) Hashtbl.t = Hashtbl.create 4 in              (* actor -> cell, stack depth of the continuation *)
+  let tx_seen : (int, unit) Hashtbl.t = Hashtbl.create 8 in                   (* cell *)
   let pend : (int, lab list) Hashtbl.t = Hashtbl.create 8 in
   let getp a = match Hashtbl.find_opt pend a with Some l -> l | None -> [] in
   (* read-only fres sections that come after whatever the woken waker does: signal = [fres: take waker]; waker.wake(); Drop of the signaller = [fres] *)
@@ -274,6 +333,16 @@ let replay (p : pinfo) (evs : ev array) : stats =
   let show_top a = match top_of !s a with Some f -> show_frame f | None -> "(empty stack)" in
   let raw_step a why =
     let fr = (match top_of !s a with Some f -> f | None -> div "%s: actor %d has an empty stack" why a) in
+    (match fr with
+     | FY (YPuser, _, _, _) | FJob (JFut (_, _, PSignal _ :: _), _, _) ->
+       if Hashtbl.mem need_ostart a then div "actor %d polls the user future of its future_sync, the marker sf OSTART has not come" a;
+       (match Hashtbl.find_opt need_rx a with Some c -> div "actor %d goes on although the receiver of cell %d has not been dropped (os rxdrop)" a c | None -> ())
+     | _ -> ());
+    (match Hashtbl.find_opt need_tx a with
+     | Some (c, depth) when List.length (arec a).stack <= depth ->
+       if not (Hashtbl.mem tx_seen c) then div "actor %d goes on after resolving cell %d, its os send / os txdrop line has not come" a c;
+       Hashtbl.remove need_tx a
+     | _ -> ());
     match step tables !s (nat_of_int a) with
     | None -> None
     | Some s1 ->
@@ -284,7 +353,25 @@ let replay (p : pinfo) (evs : ev array) : stats =
           | FJob (JFut (_, _, PAwait e :: _), _, _) when List.mem (i e) p.susp_ev && List.length (getev s1 (i e)).wakers >= 2 ->
             st.rereg <- st.rereg + 1;
             { s1 with evs = List.mapi (fun k (c : evcell) -> if k = i e then { c with wakers = [List.hd c.wakers] } else c) s1.evs }
+          (* the receiver of queue_ready is a oneshot too: a second pending poll by the owner REPLACES its task waker, the model's
+             cell (FY .. YPrecv: wakers := WTask a :: wakers) keeps both and would call it twice at the send: keep the newest only *)
+          | FY (YPrecv, y, YQueue _, _) when (let ws = (getev s1 (i y.y_r)).wakers in List.length (List.filter (fun w -> w = WTask (nat_of_int a)) ws) >= 2) ->
+            st.rereg <- st.rereg + 1;
+            { s1 with evs = List.mapi (fun k (c : evcell) -> if k <> i y.y_r then c else
+                                          let seen = ref false in
+                                          { c with wakers = List.filter (fun w -> if w = WTask (nat_of_int a) then (if !seen then false else (seen := true; true)) else true) c.wakers }) s1.evs }
           | _ -> s1) in
+      let wakes_above (st : frame list) = let rec go n = function FWake _ :: r -> go (n + 1) r | _ -> n in go 0 st in
+      let tx c = (match List.nth_opt s1.actors a with
+          | Some ac -> Hashtbl.replace need_tx a (c, List.length ac.stack - wakes_above ac.stack)
+          | None -> ()) in
+      (match fr with
+       | FY (YPfin, y, _, _) -> Hashtbl.replace cell_sent (i y.y_r + 1) true; tx (i y.y_r + 1)
+       | FY (YPdrop2, y, _, _) -> Hashtbl.replace cell_sent (i y.y_r + 1) false; tx (i y.y_r + 1)
+       | FJob (JFut (_, Waiting, PSendReady r :: _), _, _) -> tx (i r)
+       | FY (YPrecv, y, YQueue _, _) when (getev !s (i y.y_r)).fired -> Hashtbl.replace need_ostart a (); Hashtbl.replace need_rx a (i y.y_r)
+       | FJob (JFut (_, Waiting, PAwaitDone d :: _), _, _) when (getev !s (i d)).fired -> Hashtbl.replace need_rx a (i d)
+       | _ -> ());
       let post = post_of !s a fr s1 in
       if !trace then Printf.printf "  [event %d] actor %d steps %s (%s) -> %s/%d\n" !cur a (show_frame fr) why (show_qs s1.qs) (List.length s1.jobs);
       s := s1; st.steps <- st.steps + 1;
@@ -374,7 +461,7 @@ let replay (p : pinfo) (evs : ev array) : stats =
        | None -> stutter a lab snap "model actor is blocked or finished"
        | Some at when at = lab ->
          let before = !s and pbefore = getp a in
-         (match top_of !s a with Some (FPark _) when not (arec a).token -> give_token a | _ -> ());
+         (match top_of !s a with Some (FPark _ | FY (YPpark, _, _, _)) when not (arec a).token -> give_token a | _ -> ());
          (match raw_step a (show_lab lab) with
           | None -> div "model actor %d cannot move at %s%s but the implementation performed %s" a (show_top a)
                       (if would_panic tables !s (nat_of_int a) then " (the model would panic here)" else "") (show_lab lab)
@@ -405,6 +492,22 @@ let replay (p : pinfo) (evs : ev array) : stats =
     | Some x -> Hashtbl.remove pfire a; handle a (Fire x) ""
     | None -> () in
   let flush_fire_ev x = Hashtbl.iter (fun a y -> if y = x then (Hashtbl.remove pfire a; handle a (Fire x) "")) (Hashtbl.copy pfire) in
+  (* future_sync: the step that resolves oneshot cell c (send of queue_ready by the slot job; task_finished.send / its drop by the
+     owner) is silent and normally taken before the resolving task's next event.  A poll by ANOTHER task may be logged before that:
+     the step is then taken at once (the shim logs `os send` / `os txdrop` after the operation, like replay_syncfut's pull-forward) *)
+  let pull_cell c =
+    if not (getev !s c).fired then begin
+      List.iteri (fun b (_ : arec) ->
+          let rec go guard =
+            if guard > 0 && not (getev !s c).fired && getp b = [] then
+              match top_of !s b with
+              | Some (FJob (JFut (_, _, PSendReady r :: _), _, _)) when i r = c -> ignore (raw_step b "oneshot send seen by a poll"); go (guard - 1)
+              | Some (FY ((YPfin | YPdrop2), y, _, _)) when i y.y_r + 1 = c -> ignore (raw_step b "oneshot send/drop seen by a poll"); go (guard - 1)
+              | _ -> () in
+          go 3) !s.actors;
+      if (getev !s c).fired then st.pulls <- st.pulls + 1
+    end in
+  let has_fy a = List.exists (function FY _ -> true | _ -> false) (arec a).stack in
   (* at END every caller has finished its script in the implementation: the model's callers must get there by silent steps *)
   let at_end () =
     Hashtbl.iter (fun a x -> Hashtbl.remove pfire a; handle a (Fire x) "") (Hashtbl.copy pfire);
@@ -488,6 +591,19 @@ let replay (p : pinfo) (evs : ev array) : stats =
           | _ -> ())
        | _ -> ())
     end
+    else if e.kind = "sf" && (match Hashtbl.find_opt actor_of e.task with Some a -> a < ncallers && has_fy a | None -> false) then begin
+      (* harness markers of a caller that holds a SyncFuture *)
+      let a = Hashtbl.find actor_of e.task in
+      (match e.cls with
+       | "YNEW" -> Hashtbl.replace yoid a e.id; st.ycalls <- st.ycalls + 1
+       | "OSTART" when Hashtbl.find_opt yoid a = Some e.id ->
+         (match top_of !s a with
+          | Some (FY (YPuser, _, YFuture _, _)) when getp a = [] && Hashtbl.mem need_ostart a -> Hashtbl.remove need_ostart a
+          | _ -> div "caller %d creates the user future of its future_sync, model frame %s" a (show_top a))
+       | "OEND" when Hashtbl.find_opt yoid a = Some e.id -> handle a (if e.snap = "finished" then Oend else OendC) ""
+       | "DROPFUT" -> handle a DropFut ""
+       | _ -> ())
+    end
     else if relevant e then begin
       let a = (match Hashtbl.find_opt actor_of e.task with
           | Some a -> a
@@ -501,8 +617,13 @@ let replay (p : pinfo) (evs : ev array) : stats =
         if Hashtbl.mem seen_fres e.id then div "future result %d created twice" e.id;
         Hashtbl.replace seen_fres e.id ();
         if e.id >= List.length !s.futs then begin
+          let ncell = List.length !s.evs in
           handle a NewF "";
-          if e.id >= List.length !s.futs then div "future result %d created, the model has %d futures" e.id (List.length !s.futs)
+          if e.id >= List.length !s.futs then div "future result %d created, the model has %d futures" e.id (List.length !s.futs);
+          (match Hashtbl.find_opt ypend a with
+           | Some [c1; c0] when List.length !s.evs = ncell + 2 -> Hashtbl.replace ychan c0 ncell; Hashtbl.replace ychan c1 (ncell + 1); Hashtbl.remove ypend a
+           | Some _ -> div "caller %d created oneshot channels but its next operation in the model is not a future_sync (%s)" a (show_top a)
+           | None -> if List.length !s.evs <> ncell then div "the model's future_sync of caller %d has no oneshot channels in the log" a)
         end
       | "new", "dwaker" -> if e.id <> List.length !s.dws - 1 then div "DrainWaker %d created, the model's latest is %d (actor %d at %s)" e.id (List.length !s.dws - 1) a (show_top a)
       | "new", "dblwaker" -> ()       (* created before the state is set to WaitingForPoll? no: after; checked at its use *)
@@ -510,7 +631,43 @@ let replay (p : pinfo) (evs : ev array) : stats =
         (match settle a 200 with _ -> ());
         (match top_of !s a with
          | Some (FJob (JFut (_, _, PSignal _ :: PAwait ev :: _), _, _)) -> Hashtbl.replace os_ev e.id (i ev)
+         | Some (FTop (OFutSync _ :: _)) ->                 (* future_sync: queue_ready first, then done *)
+           let l = (match Hashtbl.find_opt ypend a with Some l -> l | None -> []) in
+           if List.length l >= 2 then div "caller %d creates a third oneshot channel before its future_sync" a;
+           Hashtbl.replace ypend a (e.id :: l)
          | _ -> raise (Unsupported "a oneshot channel that is not the resume channel of a suspend"))
+      | "os", c when Hashtbl.mem ychan e.id ->
+        let cell = Hashtbl.find ychan e.id in
+        let once k = if Hashtbl.mem os_seen (e.id, k) then div "oneshot %d (model cell %d): second %s" e.id cell k; Hashtbl.replace os_seen (e.id, k) () in
+        (match c with
+         | "send" | "txdrop" ->
+           once "send / sender drop";
+           Hashtbl.replace tx_seen cell ();
+           (match settle a 200 with _ -> ());
+           if not (getev !s cell).fired then div "oneshot %d (model cell %d): %s logged, in the model actor %d has not resolved the cell (%s)" e.id cell c a (show_top a);
+           (match Hashtbl.find_opt cell_sent cell with
+            | Some sent -> if sent <> (c = "send") then div "oneshot %d (model cell %d): %s, in the model the cell was %s" e.id cell c (if sent then "sent" else "dropped")
+            | None -> if c <> "send" then div "oneshot %d (model cell %d, queue_ready): the sender was dropped" e.id cell)
+         | "poll" ->
+           if e.snap <> "pending" then pull_cell cell;
+           (match settle a 200 with _ -> ());
+           let fired = (getev !s cell).fired in
+           if (e.snap = "pending") = fired then div "oneshot %d (model cell %d) polled by actor %d: impl=%s, in the model the cell is %s" e.id cell a e.snap (if fired then "resolved" else "empty");
+           (match e.snap, Hashtbl.find_opt cell_sent cell with
+            | "value", Some false -> div "oneshot %d (model cell %d): poll returned a value, in the model the sender was dropped" e.id cell
+            | "canceled", (Some true | None) -> div "oneshot %d (model cell %d): poll returned Canceled, in the model the value was sent" e.id cell
+            | _ -> ());
+           handle a (OsPoll cell) ""
+         | "rxdrop" ->
+           once "receiver drop";
+           if Hashtbl.find_opt need_rx a = Some cell then Hashtbl.remove need_rx a      (* after the channel resolved: no model step *)
+           else begin
+             (match settle a 200 with _ -> ());
+             (match top_of !s a with
+              | Some (FY (YPdrop1, y, YQueue _, _)) when i y.y_r = cell -> handle a (OsRx cell) ""
+              | _ -> div "oneshot %d (model cell %d): receiver dropped by actor %d, model frame %s" e.id cell a (show_top a))
+           end
+         | _ -> ())
       | "os", c ->
         (match Hashtbl.find_opt os_ev e.id with
          | None -> raise (Unsupported "a oneshot channel that is not the resume channel of a suspend")
@@ -547,14 +704,16 @@ let replay (p : pinfo) (evs : ev array) : stats =
   if not !ended then at_end ();
   (* at QUIET (pool >= 1) every operation has finished: no job is left (the runner may still be on its way out of drain) *)
   Hashtbl.iter (fun a l -> if l <> [] && p.pool = 0 then div "actor %d: the signaller's Drop section (%s) never came" a (show_lab (List.hd l))) deferred;
-  if p.pool >= 1 && p.susp_ev = [] && !s.jobs <> [] then div "at QUIET the model's queue still holds %d job(s) (%s)" (List.length !s.jobs) (core_snap !s);
+  (* ... except the slot jobs of future_sync calls whose future was dropped: the harness counts such a call as finished at the drop *)
+  let left = List.filter (function JFut (_, _, sc) -> not (List.exists (function PSendReady _ | PAwaitDone _ -> true | _ -> false) sc) | _ -> true) !s.jobs in
+  if p.pool >= 1 && p.susp_ev = [] && left <> [] then div "at QUIET the model's queue still holds %d job(s) (%s)" (List.length !s.jobs) (core_snap !s);
   st
 
 (* ---------- main ---------- *)
 let () =
   let args = List.tl (Array.to_list Sys.argv) in
   let files = List.filter (fun a -> if a = "--trace" then (trace := true; false) else true) args in
-  let ok = ref 0 and bad = ref 0 and skipped = ref 0 and steps = ref 0 and labelled = ref 0 and stutters = ref 0 and events = ref 0 and reorders = ref 0 and rereg = ref 0 in
+  let ok = ref 0 and bad = ref 0 and skipped = ref 0 and steps = ref 0 and labelled = ref 0 and stutters = ref 0 and events = ref 0 and reorders = ref 0 and rereg = ref 0 and ycalls = ref 0 and pulls = ref 0 in
   let skips : (string, int) Hashtbl.t = Hashtbl.create 16 in
   let skip file why = incr skipped; Hashtbl.replace skips why (1 + (match Hashtbl.find_opt skips why with Some n -> n | None -> 0)); Printf.printf "SKIP\t%s\t%s\n" file why in
   List.iter (fun file ->
@@ -577,11 +736,11 @@ let () =
         (try
            let p = parse_prog !prog in
            let st = replay p evs in
-           incr ok; steps := !steps + st.steps; labelled := !labelled + st.labelled; stutters := !stutters + st.stutters; reorders := !reorders + st.reorders; rereg := !rereg + st.rereg;
+           incr ok; steps := !steps + st.steps; labelled := !labelled + st.labelled; stutters := !stutters + st.stutters; reorders := !reorders + st.reorders; rereg := !rereg + st.rereg; ycalls := !ycalls + st.ycalls; pulls := !pulls + st.pulls;
            events := !events + Array.length evs;
            Printf.printf "OK\t%s\t%d\t%d\n" file st.steps st.labelled
          with
          | Diverge msg -> incr bad; Printf.printf "DIVERGE\t%s\t%s\t%s\n" file !prog msg
          | Unsupported why -> skip file why)) files;
   Hashtbl.iter (fun why n -> Printf.printf "SKIPS\t%d\t%s\n" n why) skips;
-  Printf.printf "SUMMARY\tok=%d\tdiverged=%d\tskipped=%d\tmodel_steps=%d\tlabelled_steps=%d\tstutters=%d\twake_reorders=%d\toneshot_rereg=%d\tevents=%d\n" !ok !bad !skipped !steps !labelled !stutters !reorders !rereg !events
+  Printf.printf "SUMMARY\tok=%d\tdiverged=%d\tskipped=%d\tmodel_steps=%d\tlabelled_steps=%d\tstutters=%d\twake_reorders=%d\toneshot_rereg=%d\tevents=%d\tfutsync_calls=%d\tos_pull_forward=%d\n" !ok !bad !skipped !steps !labelled !stutters !reorders !rereg !events !ycalls !pulls
